@@ -178,7 +178,9 @@ def replay(header, obs, backend="lambda", seed=0, compare_fresh=True):
                 bystander = (live.fresh(), (2, live.np, ne))
             except Exception:
                 bystander = None
-        if got.shape != exp.shape or not np.all(np.abs(got - exp) <= 1e-9 * (sc + np.abs(got)) + 1e-300):
+        # (floor relative to the largest entry scale: an entry whose terms cancel comes back as a rounding residue)
+        floor = 1e-9 * (float(np.max(sc)) if np.size(sc) else 0.0)
+        if got.shape != exp.shape or not np.all(np.abs(got - exp) <= 1e-9 * (sc + np.abs(got)) + floor + 1e-300):
             return {"step": c, "what": "evaluator is not the function of the current definition", "e": e,
                     "got": got.tolist(), "expected": exp.tolist(), "after": last_mut}, pairs
         if compare_fresh:
